@@ -10,8 +10,8 @@ From MD Require Import Gen.Regexes.
 Definition normalize_re (s : str) : str :=
   sub_tpl re_normalize_NULL_RE [TLit [65533]] (sub_tpl re_normalize_NEWLINES_RE [TLit [10]] s).
 
-(* direct definition (proved properties are about this one; the two are compared
-   on every run, and their equality on all inputs is Lemmas/NormalizeLemmas) *)
+(* direct definition (proved properties are about this one; the two are equal on
+   every string: Lemmas/NormalizeRe.normalize_re_eq, and are compared on every run) *)
 Fixpoint normalize (s : str) : str :=
   match s with
   | [] => []
